@@ -346,6 +346,9 @@ fn node_main(
                 out.obs.push(obs);
             }
             Op::Clear => {
+                if last_run_terminated_early {
+                    *out.probes.entry("clear_after_early_terminated_run".into()).or_insert(0) += 1;
+                }
                 runtime.clear();
                 last_run_terminated_early = false;
                 let empty = runtime.is_empty();
